@@ -30,7 +30,7 @@ ASSUMPTIONS = [
     "instruments without the 'SAMP' signature (true legacy) are outside this property's domain",
 ]
 REQUIRED_LABELS = {
-    "quick": ["edit_pf", "edit_mc", "edit_ctl", "edit_opt", "edit_cmid", "edit_pay", "edit_cell", "src_fixture", "src_project", "src_synth", "sampler_edit", "changed", "attr_sweep", "saved_before_edit", "embedded_edit"],
+    "quick": ["edit_pf", "edit_mc", "edit_ctl", "edit_opt", "edit_cmid", "edit_pay", "edit_cell", "src_fixture", "src_project", "src_synth", "sampler_edit", "changed", "attr_sweep", "saved_before_edit", "embedded_edit", "duplicates", "edit_inside_one_of_identical_containers"],
     "thorough": ["edit_pf", "edit_mc", "edit_ctl", "edit_opt", "edit_cmid", "edit_pay", "edit_cell", "edit_patf", "src_fixture", "src_project", "src_synth", "sampler_edit", "metamodule_edit", "embedded_edit", "changed", "fixture_sweep"],
 }
 
@@ -42,7 +42,7 @@ def exhaustive(tier):
 def plan(tier):
     n, per = (16, 60) if tier == "quick" else (16, 1500)
     descs = [{"kind": "random", "examples": per} for _ in range(n)]
-    for t in ("Sampler", "MetaModule", "NestedMeta", "SamplerEffect"):
+    for t in ("Sampler", "MetaModule", "NestedMeta", "SamplerEffect", "Duplicates"):
         for i in range(2):
             descs.append({"kind": "focus", "type": t, "examples": per})
     fs = c05.fixture_files()
@@ -76,6 +76,15 @@ def edit_case(draw, fixture=None, focus=None):
         from checks import c15
 
         src = {"src": "meta", "spec": draw(c15.meta_spec(draw(st.integers(1, 2)), in_project=False))}
+    elif focus == "Duplicates":
+        # a song holding several byte-identical copies of one MetaModule / Sampler-with-effect
+        import copy
+
+        ps = draw(build.project_spec(depth=0, max_modules=2, max_patterns=1))
+        dup = draw(st.one_of(build.module_spec(in_project=True, depth=1, tname="MetaModule"), build.module_spec(in_project=True, depth=1, tname="Sampler").filter(lambda ms: ms["payload"].get("effect"))))
+        for _ in range(draw(st.integers(2, 3))):
+            ps["modules"].append(copy.deepcopy(dup))
+        src = {"src": "project", "spec": ps}
     elif focus == "SamplerEffect":
         src = {"src": "synth", "spec": draw(build.module_spec(in_project=False, depth=1, tname="Sampler").filter(lambda ms: ms["payload"].get("effect")))}
     elif focus is not None:
@@ -294,6 +303,15 @@ def run_shard(ctx, desc):
             ctx.label("fixture_sweep")
             if not run_property(ctx, edit_case(fixture=rel), body, desc["edits"], tag="sweep:" + rel, bucket="edit"):
                 return
+        return
+    if desc["kind"] == "focus" and desc["type"] == "Duplicates":
+        def body_dup(case):
+            body(case)
+            if any("'embedded'" in repr(e) or "'effect'" in repr(e) for e in case["edits"]):
+                ctx.label("edit_inside_one_of_identical_containers")
+            ctx.label("duplicates")
+
+        run_property(ctx, edit_case(focus="Duplicates"), body_dup, desc["examples"], tag="focus:Duplicates", bucket="edit")
         return
     if desc["kind"] == "focus":
         run_property(ctx, edit_case(focus=desc["type"]), body, desc["examples"], tag="focus:" + desc["type"], bucket="edit")
